@@ -176,8 +176,13 @@ structure CS where
 def CS.init (peerIds : List (List Nat)) (l : Limits) : CS :=
   { sw := State.init peerIds, g := { lim := { limits := l } } }
 
+/-- `sw op ov`: a Swarm op; `ov` = the dial was made with `DialOpts::override_role()` (hole
+punching: the local node plays the listener of the upgrade on a connection it dialed).  Neither the
+Swarm's bookkeeping nor the limits behaviour looks at the role override — a dialed connection is
+pending-outgoing / established-outgoing whatever its role — so the flag is carried (and printed in
+replays) but read by nothing: that is the claim the correspondence tests. -/
 inductive COp where
-  | sw (op : Op)
+  | sw (op : Op) (ov : Bool)
   | bypass (p : Nat)
   | unbypass (p : Nat)
   | setLimits (l : Limits)
@@ -188,7 +193,7 @@ def hasConns (s : State) : Bool := !(s.pendOut.isEmpty && s.pendIn.isEmpty && s.
 def hasConnsTo (s : State) (p : Nat) : Bool := s.isConnected p || s.isDialing p
 
 def step (cs : CS) : COp → CS × Res × List Ev
-  | .sw op =>
+  | .sw op _ =>
     let d := decideOp cs.g.lim cs.sw op
     let r := Swarm.step cs.sw (withDeny op d)
     ({ cs with sw := r.1, g := feedAll (ctxOf cs.sw op) cs.g r.2.2 }, r.2.1,
